@@ -238,6 +238,11 @@ def run(ctx):
     n = ctx.budget(50_000, 1_000_000)
     done = 0
     while done < n and ctx.alive():
+        if rng.random() < 0.005:
+            from ..gen_stepper import failed_call
+            from plotink import plot_utils as _pu
+            failed_call(rng, _pu.vb_scale, 4)
+            ctx.tag("history: after a failed call (malformed arguments)")
         if rng.random() < 0.12:
             cls, vb_text, doc_w, doc_h = gen_malformed(rng)
             par = rng.choice((None, "xMinYMin slice", "none"))
@@ -301,6 +306,7 @@ def run(ctx):
               "viewBox size and page size both non-positive"):
         ctx.need("malformed:" + m, 50)
     ctx.need("defer", 300)
+    ctx.need("history: after a failed call (malformed arguments)", 50)
     ctx.need("history: related arguments after a previous call", 1000)
     ctx.need("aspect ratios differ by less than 1e-3 (but differ)", 300)
     ctx.need("number without a leading zero", 100)
